@@ -1196,7 +1196,10 @@ impl TensorChain {
     /// # Errors
     /// Returns an error if the rollback fails.
     pub fn rollback(&self, workspace: &Arc<TransactionWorkspace>) -> Result<()> {
-        workspace.rollback(self.graph.store())?;
+        // Operations of a workspace are only recorded until commit, so there is
+        // nothing to undo in the store; restoring the begin-time snapshot would
+        // erase every block and write committed since `begin`.
+        workspace.abandon()?;
         self.tx_manager.remove(workspace.id());
         Ok(())
     }
